@@ -683,6 +683,14 @@ func TestVerifC02(t *testing.T) {
 				continue
 			}
 			enum.Product(dims, func(idx []int) bool {
+				if n == 3 && alphaName == "full" && mode == "async" {
+					// depth 3 x full alphabet x async: the event after the last produce is
+					// limited to none | flush+restart (the other two are covered at depth <= 2
+					// and with the reduced alphabet)
+					if ls := seps[idx[2*n-1]]; ls != "none" && ls != "flush+restart" {
+						return true
+					}
+				}
 				hst := &c02Hist{Mode: mode, StoreFail: sf, Alpha: alphaName}
 				hst.idx = append([]int(nil), idx[:n]...)
 				for i := 0; i < n; i++ {
